@@ -15,6 +15,9 @@ import (
 // It is used for LangRefValue objects without an explicit language key.
 const NilLangRef LangRef = "-"
 
+// undLangRef is the BCP47 tag for an undetermined language: the key under which an untagged value is written in a language map.
+const undLangRef LangRef = "und"
+
 // DefaultLang represents the default language reference used when using the convenience content generation.
 var DefaultLang = NilLangRef
 
@@ -396,8 +399,8 @@ func (n NaturalLanguageValues) MarshalJSON() ([]byte, error) {
 			continue
 		}
 		if len(val.Ref) == 0 || val.Ref == NilLangRef {
-			// NOTE(marius): a language map needs a key for every value, "und" is the BCP47 tag for an undetermined language
-			val.Ref = "und"
+			// a language map needs a key for every value, "und" is the BCP47 tag for an undetermined language
+			val.Ref = undLangRef
 		}
 		if !empty {
 			b.Write([]byte{','})
@@ -737,7 +740,11 @@ func (n *NaturalLanguageValues) UnmarshalJSON(data []byte) error {
 		ob, _ := val.Object()
 		ob.Visit(func(key []byte, v *fastjson.Value) {
 			if dat := v.GetStringBytes(); len(dat) > 0 {
-				n.Append(LangRef(key), append(Content{}, dat...))
+				ref := LangRef(key)
+				if ref == undLangRef {
+					ref = NilLangRef
+				}
+				n.Append(ref, append(Content{}, dat...))
 			}
 		})
 	case fastjson.TypeString:
